@@ -54,6 +54,9 @@ pub struct ListDesc {
     /// preempted after exactly k instructions of code under test (sched::fine_window)
     #[serde(default)]
     pub fine: Option<(usize, usize, u64)>,
+    /// with `fine`: preempt right after the j-th atomic instruction of the operation instead
+    #[serde(default)]
+    pub fine_atomic: Option<u64>,
     /// recorded schedule (tid chosen at every decision); present = replay literally
     #[serde(default)]
     pub schedule: Option<Vec<u8>>,
@@ -409,6 +412,7 @@ pub fn generate_c16(run_seed: u64, thorough: bool) -> ListDesc {
         by_ref,
         script_made,
         fine,
+        fine_atomic: if fine.is_some() && fr.chance(1, 2) { Some(1 + fr.below(6)) } else { None },
         schedule: None,
     }
 }
@@ -699,6 +703,7 @@ pub fn generate_c15(run_seed: u64, thorough: bool, faults: bool) -> ListDesc {
         by_ref: false,
         script_made: vec![],
         fine: None,
+        fine_atomic: None,
         schedule: None,
     }
 }
@@ -877,6 +882,7 @@ where
         let seq_log = seq_log.clone();
         let nslots = plan.slots.len();
         let fine = if sequential { None } else { d.fine };
+        let fine_atomic = d.fine_atomic;
         bodies.push(Box::new(move || {
             let mut ids = ids;
             // sequential model, stepped operation by operation (C15)
@@ -896,7 +902,10 @@ where
                 }
                 let inv = sched::stamp();
                 let obs = match fine {
-                    Some((ft, fi, fk)) if ft == t && fi == k => sched::fine_window(fk, || ex.exec(op, origin)),
+                    Some((ft, fi, fk)) if ft == t && fi == k => match fine_atomic {
+                        Some(j) => sched::fine_window_atomic(j, || ex.exec(op, origin)),
+                        None => sched::fine_window(fk, || ex.exec(op, origin)),
+                    },
                     _ => ex.exec(op, origin),
                 };
                 let ret = sched::stamp();
@@ -975,7 +984,7 @@ where
     let events = std::mem::take(&mut *history.lock().unwrap());
     let mut lin_states = 0;
     if !sequential && !viol::any() {
-        let lr = model::linearizable(&heap0, &events, 2_000_000);
+        let lr = model::linearizable(&heap0, &events, 600_000);
         lin_states = lr.states;
         if lr.gave_up {
             res.counters.insert("lin_gave_up".into(), 1);
@@ -1194,6 +1203,7 @@ pub fn shrink(d: &ListDesc) -> Vec<ListDesc> {
     if d.fine.is_some() {
         let mut c = d.clone();
         c.fine = None;
+        c.fine_atomic = None;
         out.push(c);
     }
     let sched = d.schedule.clone().unwrap_or_default();
